@@ -308,6 +308,7 @@ Proof.
   - intros p v i k [<-|[]]; left; reflexivity.
   - intros p n pb b IH k [<-|H]; [left; reflexivity | right; right; apply IH; exact H].
   - intros p pb b IH k [<-|H]; [left; reflexivity | right; right; apply IH; exact H].
+  - intros p gp pb b IH k [<-|H]; [left; reflexivity | right; right; right; apply IH; exact H].
   - intros p a k [<-|[]]; left; reflexivity.
   - intros p e k [<-|[]]; left; reflexivity.
   - intros p l k [<-|[]]; left; reflexivity.
@@ -322,6 +323,9 @@ Proof.
   - intros p c b IH k [<-|H]; [left; reflexivity | right]. destruct c as [c|]; [destruct (may_true c); [apply IH; exact H | destruct H] | apply IH; exact H].
   - intros p b IH k [<-|H]; [left; reflexivity | right; apply IH; exact H].
   - intros p b IH k [<-|H]; [left; reflexivity | right; apply IH; exact H].
+  - intros p g fp pb hb IHh b IHb k [<-|H]; [left; reflexivity | right]. apply in_app_or in H. destruct H as [H|H].
+    + right. right. apply in_or_app. left. apply IHh. exact H.
+    + right. right. apply in_or_app. right. apply IHb. exact H.
   - intros p cs IH k [<-|H]; [left; reflexivity | right; apply IH; exact H].
   - intros p l b IH k [<-|H]; [left; reflexivity | right; apply IH; exact H].
   - intros p bp blk IHb h hb IHh f fb IHf k [<-|H]; [left; reflexivity | right; right].
@@ -552,6 +556,50 @@ Proof.
   intros H x Hl. destruct (fn_B p pb body cb Rb H x Hl) as [[P2 _] [Hr Hf]]. destruct (fn_likeG fx p pb body x) as [[y r] lg].
   cbn [g_st g_rs g_lg fst snd] in *. dsplit; [|exact Hr | exact Hf].
   split; [|dsplit; discriminate]. intros Hd. apply P2. unfold dd in *. rewrite end_visit_lit in Hd. exact Hd.
+Qed.
+
+(* a function-like in expression position (object-literal getter statement, loop head) *)
+Lemma fn_expr_A fp pb body K : okAl body K -> okA (fn_exprG fx fp pb body) K.
+Proof.
+  intros H x. unfold fn_exprG. destruct (fn_A fp pb body K H x) as [Hm [Hc Hk]]. destruct (fn_likeG fx fp pb body x) as [[y r] lg].
+  cbn [g_st g_lg fst snd] in *. dsplit; [eapply mono_trans; [exact Hm | apply mono_visit_lit] | exact Hc | exact Hk].
+Qed.
+
+Lemma fn_expr_B fp pb body cb Rb : okBl body cb Rb -> okB (fn_exprG fx fp pb body) only_N Rb.
+Proof.
+  intros H x Hl. unfold fn_exprG. destruct (fn_B fp pb body cb Rb H x Hl) as [[P2 _] [Hr Hf]]. destruct (fn_likeG fx fp pb body x) as [[y r] lg].
+  cbn [g_st g_rs g_lg fst snd] in *. dsplit; [|discriminate | exact Hf].
+  split; [|dsplit; discriminate]. intros Hd. apply P2. unfold dd in *. rewrite end_visit_lit in Hd. exact Hd.
+Qed.
+
+Lemma for_head_A fp pb body K : okAl body K -> okA (for_headG fx fp pb body) K.
+Proof. intros H. unfold for_headG. cbn [fixE fx repaired]. apply fn_expr_A. exact H. Qed.
+Lemma for_head_B fp pb body cb Rb : okBl body cb Rb -> okB (for_headG fx fp pb body) only_N Rb.
+Proof. intros H. unfold for_headG. cbn [fixE fx repaired]. eapply fn_expr_B. exact H. Qed.
+
+(* the head of a loop, then the loop *)
+Lemma seq_A hd tl K1 K2 : okA hd K1 -> okA tl K2 -> okA (seqG hd tl) (K1 ++ K2).
+Proof.
+  intros H1 H2 x. unfold seqG. destruct (H1 x) as [Hm1 [Hc1 Hk1]]. destruct (hd x) as [[y r1] lg1]. cbn [g_st g_lg fst snd] in *.
+  destruct (H2 y) as [Hm2 [Hc2 Hk2]]. destruct (tl y) as [[z r] lg2]. cbn [g_st g_lg fst snd] in *.
+  dsplit; [eapply mono_trans; eassumption | apply cases_ok_app; assumption|].
+  apply lkeys_in_app; [eapply lkeys_in_weak; [exact Hk1 | apply incl_appl, incl_refl] | eapply lkeys_in_weak; [exact Hk2 | apply incl_appr, incl_refl]].
+Qed.
+
+Lemma seq_B hd tl c R1 R2 K1 K2 :
+  okB hd only_N R1 -> okB tl c R2 -> okA hd K1 -> okA tl K2 ->
+  (forall k, In k K1 -> ~ In k R2) -> (forall k, In k K2 -> ~ In k R1) ->
+  okB (seqG hd tl) c (R1 ++ R2).
+Proof.
+  intros H1 H2 A1 A2 D12 D21 x Hl. unfold seqG.
+  destruct (H1 x Hl) as [[P2 _] [_ Hf]]. destruct (A1 x) as [_ [_ Hk1]].
+  destruct (hd x) as [[y r1] lg1]. cbn [g_st g_rs g_lg fst snd] in *.
+  assert (Hly : lv y) by (destruct (lv_or_dd y) as [Hy | Hy]; [exact Hy | discriminate (P2 Hy)]).
+  destruct (H2 y Hly) as [Q [Qr Qf]]. destruct (A2 y) as [_ [_ Hk2]].
+  destruct (tl y) as [[z r] lg2]. cbn [g_st g_rs g_lg fst snd] in *.
+  dsplit; [exact Q | exact Qr|].
+  apply flags_ok_app_l; apply flags_ok_app_r;
+    [exact Hf | eapply flags_ok_disjoint; [exact Hk1 | exact D12] | eapply flags_ok_disjoint; [exact Hk2 | exact D21] | exact Qf].
 Qed.
 
 (* if without else *)
@@ -1637,6 +1685,19 @@ Proof.
       * eapply arrow_B. exact Bb.
       * apply arrow_A. exact Ab.
       * intros k Hk E. cbn [pos] in E. subst k. apply Hp. right. exact Hk.
+  - (* SGetterStmt *) intros p gp pb b IHb Hn. cbn [keys] in Hn.
+    apply NoDup_cons_inv in Hn. destruct Hn as [Hp Hn]. apply NoDup_cons_inv in Hn. destruct Hn as [Hgp Hn].
+    apply NoDup_cons_inv in Hn. destruct Hn as [Hpb Hn].
+    destruct (IHb Hn) as [Ab Bb].
+    split.
+    + eapply okA_ext; [intros x; reflexivity|]. eapply (wrap_A _ (fn_exprG fx gp pb (anG_list fx b)) (keys_l b)).
+      * apply fn_expr_A. exact Ab.
+      * cbn [keys]. apply incl_tl, incl_tl, incl_tl, incl_refl.
+      * left. reflexivity.
+    + intros ls. eapply okB_ext; [intros x; reflexivity|]. eapply (wrap_B _ (fn_exprG fx gp pb (anG_list fx b)) (keys_l b)).
+      * eapply fn_expr_B. exact Bb.
+      * apply fn_expr_A. exact Ab.
+      * intros k Hk E. cbn [pos] in E. subst k. apply Hp. right. right. exact Hk.
   - (* SRet *) intros p a Hn.
     assert (HA : okA (fun x => let '(y, r) := visit_returnG p a x in (y, r, @nil gent)) []).
     { intros x. unfold visit_returnG. cbn [g_st g_lg fst snd]. dsplit; [|apply cases_ok_nil | apply lkeys_in_nil].
@@ -1744,6 +1805,26 @@ Proof.
       * apply for_in_B. apply Bb.
       * apply for_in_A. exact Ab.
       * intros k Hk E. cbn [pos] in E. subst k. apply Hp. exact Hk.
+  - (* SForHead *) intros p g fp pb hb IHh b IHb Hn. cbn [keys] in Hn. apply NoDup_cons_inv in Hn. destruct Hn as [Hp Hn].
+    apply NoDup_app_inv in Hn. destruct Hn as [Hnh [Hnb Hdis]].
+    apply NoDup_cons_inv in Hnh. destruct Hnh as [_ Hnh]. apply NoDup_cons_inv in Hnh. destruct Hnh as [_ Hnh].
+    destruct (IHh Hnh) as [Ah Bh]. destruct (IHb Hnb) as [Ab Bb].
+    assert (HA : okA (seqG (for_headG fx fp pb (anG_list fx hb)) (visit_for_inG fx (pos b) (anG fx b))) (keys_l hb ++ keys b)).
+    { apply seq_A; [apply for_head_A; exact Ah | apply for_in_A; exact Ab]. }
+    assert (Hsub : incl (keys_l hb ++ keys b) ((fp :: pb :: keys_l hb) ++ keys b)).
+    { intros k Hk. apply in_app_or in Hk. apply in_or_app. destruct Hk as [Hk | Hk]; [left; right; right; exact Hk | right; exact Hk]. }
+    split.
+    + eapply okA_ext; [intros x; reflexivity|]. eapply (wrap_A _ _ (keys_l hb ++ keys b)).
+      * exact HA.
+      * cbn [keys]. apply incl_tl. exact Hsub.
+      * left. reflexivity.
+    + intros ls. eapply okB_ext; [intros x; reflexivity|].
+      eapply (wrap_B (SForHead p g fp pb hb b) _ (keys_l hb ++ keys b)).
+      * eapply seq_B; [eapply for_head_B; exact Bh | apply for_in_B; apply Bb | apply for_head_A; exact Ah | apply for_in_A; exact Ab | |].
+        -- intros k Hk Hr. apply (Hdis k); [right; right; exact Hk | apply reach_keys; exact Hr].
+        -- intros k Hk Hr. apply (Hdis k); [right; right; apply (proj1 reach_keys_l); exact Hr | exact Hk].
+      * exact HA.
+      * intros k Hk E. cbn [pos] in E. subst k. apply Hp. apply Hsub. exact Hk.
   - (* SSwitch *) intros p cs IHc Hn. cbn [keys] in Hn. apply NoDup_cons_inv in Hn. destruct Hn as [Hp Hn].
     destruct (IHc Hn) as [Ac Bc].
     split.
